@@ -7,6 +7,18 @@ V = "/verif"
 ALL = ["C%02d" % i for i in range(1, 21)]
 
 CHECKS = {
+ "C05": dict(level="exploration",
+   text="Bounded exhaustive enumeration of Files built through the public API (17 file types x every container member x field subsets incl. union-definition mixes x boundary values x byte order x header form); every output is parsed by an independent strict FIT grammar parser and every wire value compared with a reference encoding of the Go value; File header/CRC fields checked after the call.",
+   note="Reference encoder and parser live in harness/fitmodel and harness/props/filegen.go. In-domain Files start from the all-invalid file_id (NewFile leaves Go zero values, which are outside the representable domain).",
+   technique="bounded exhaustive input enumeration with an independent grammar parser as oracle", ref="3 C05"),
+ "C06": dict(level="exploration",
+   text="The same in-domain File family (plus all ordered field pairs per message in the thorough tier and local timestamps with a UTC reference) is encoded and decoded back; per-member counts, order and every field are compared under exactly the four relaxations the property states.",
+   note="Component destinations are predicted by the C18 reference expansion; accumulated destinations are excluded when their source is set (C18 findings).",
+   technique="bounded exhaustive input enumeration, round-trip oracle with stated relaxations", ref="3 C06"),
+ "C07": dict(level="exploration",
+   text="A pool of tens of thousands of distinct accepted streams (model-generated families of C02/C12/C13/C18, out-of-profile-length strings and arrays, non-UTF-8 strings, corpus and crasher inputs) is driven through decode-encode-decode-encode-decode in both byte orders; Encode must succeed, the output must pass CheckIntegrity, generation 2 must equal generation 1 up to profile lengths and generation 3 must equal generation 2.",
+   note="Three listed findings (non-UTF-8 strings, one-pass expansion order, resized compressed_speed_distance) are attributed by exact defect models; accumulated destinations are excluded (C18 findings).",
+   technique="bounded exhaustive input enumeration, multi-generation round-trip oracle", ref="3 C07"),
  "C03": dict(level="model_checking",
    text="A router model derived by reflection from the public container types (pointer member = last message, slice member = append in order) is replayed against the real decoder for every valid file type and every word of messages up to the bound, each message carrying its stream position; plus the accessor matrix, all 256 file-type bytes and type-changing file_id records.",
    note="Model derivation trusts the container struct declarations, not the add() switches. Bound: words <=2 (quick) / <=3 (thorough) over 102 symbols, runs of 100 for append growth.",
